@@ -1229,10 +1229,26 @@ void TasmanianSparseGrid::evaluateSparseHierarchicalFunctionsStatic(const double
 std::vector<double> TasmanianSparseGrid::getHierarchicalSupport() const{
     std::vector<double> support = (empty()) ? std::vector<double>() : base->getSupport();
 
-    if (!domain_transform_a.empty()){
-        std::vector<double> correction(domain_transform_a.size());
-        std::transform(domain_transform_a.begin(), domain_transform_a.end(), domain_transform_b.begin(),
-                       correction.begin(), [](double a, double b)->double{ return 0.5 * (b - a); });
+    if (!domain_transform_a.empty() or !conformal_asin_power.empty()){
+        // lengths scale with the derivative of the canonical-to-transformed map of the rule, see mapCanonicalToTransformed()
+        std::vector<double> correction(getNumDimensions(), 1.0);
+        if (!domain_transform_a.empty()){
+            TypeOneDRule rule = base->getRule();
+            for(size_t j=0; j<correction.size(); j++){
+                if ((rule == rule_gausslaguerre) || (rule == rule_gausslaguerreodd)) correction[j] = 1.0 / domain_transform_b[j];
+                else if ((rule == rule_gausshermite) || (rule == rule_gausshermiteodd)) correction[j] = 1.0 / std::sqrt(domain_transform_b[j]);
+                else correction[j] = 0.5 * (domain_transform_b[j] - domain_transform_a[j]);
+            }
+        }
+        // the conformal map stretches distances by at most its derivative at the end of the interval
+        for(size_t j=0; j<conformal_asin_power.size(); j++){
+            double num = 0.0, den = 0.0, c = 1.0;
+            for(int k=0; k<=conformal_asin_power[j]; k++){
+                num += c; den += c / ((double) (2*k+1));
+                c *= ((double) (2*k+1)) / ((double) (2*k+2));
+            }
+            correction[j] *= num / den;
+        }
 
         for(auto is = support.begin(); is < support.end(); ){
             for(auto c : correction) *is++ *= c;
